@@ -599,9 +599,12 @@ impl Prop for C16 {
                         // here it only means the damage oracle cannot be applied
                         out.count("control_not_accepted.own_file", 1);
                     }
-                    return out;
+                    // the damage oracle is applied all the same: what C16 says about prefixes,
+                    // extensions and miscounted files does not depend on the complete file being
+                    // read (no control is rejected on the unchanged tree)
+                } else {
+                    out.count(&format!("control_accepted.{}", key_file_kind(file)), 1);
                 }
-                out.count(&format!("control_accepted.{}", key_file_kind(file)), 1);
                 if img.len() >= 8192 {
                     out.count("size.at_least_1024_values", 1);
                 }
@@ -882,7 +885,7 @@ impl Prop for C16 {
     fn assumptions(&self) -> Vec<String> {
         vec![
             "A panic on a damaged file counts as 'not accepted' here; panics are C17's subject (one defect, one property)".into(),
-            "The damage oracle is applied only to files whose undamaged form is accepted by the same reader (fault-free control)".into(),
+            "At process level the damage oracle is applied only to files whose undamaged form is accepted by the same command (fault-free control); at library level it is applied to every generated file, and the number of rejected controls is reported (zero on the unchanged tree)".into(),
             "Text edits that leave count == product(shape) produce a valid file and are skipped".into(),
         ]
     }
